@@ -395,3 +395,76 @@ def nontrivial(line, reply):
         return isinstance(sx[3], list) and len(sx[3]) > 1
     a = sx[5]
     return len(a) > 1 and isinstance(a[1], list) and len(a[1]) > 1
+
+
+# ---------------------------------------------------------------- (4) failing awaitables: model `waiterf`
+
+class Boom(Exception):
+    def __init__(self, n):
+        Exception.__init__(self, n)
+        self.n = n
+
+
+def gen_waiterf(rng, tier, w_struct, enc_w):
+    """structures with k awaitables; every completion order (k <= 3 quick, k <= 4 thorough), each awaitable returning or
+    raising; plus prefixes of schedules"""
+    import itertools
+    kmax = 3 if tier == 'quick' else 4
+    reps = 6 if tier == 'quick' else 12
+    for k in range(1, kmax + 1):
+        for _ in range(reps):
+            w = w_struct(rng, k, rng.choice([1, 2, 3, 4]))
+            ws = enc_w(w)
+            for order in itertools.permutations(range(k)):
+                for _ in range(2):
+                    bad = [i for i in range(k) if rng.random() < 0.4]          # may be empty: results only
+                    cut = rng.choice([k, k, k, rng.randrange(0, k + 1)])
+                    evs = [(i, (False, 900 + i) if i in bad else (True, 100 + i)) for i in order[:cut]]
+                    yield dict(tag='waiterf k=%d failing=%d%s' % (k, len(bad), '' if cut == k else ' prefix'),
+                               lines=['(waiterf events %s %s)' % (ws, enc(evs))])
+
+
+def run_waiterf(wsx, events, dec_w, spin=60):
+    """real asyncio futures: results via set_result, failures via set_exception, the loop spun between events; reports what
+    the caller of `waiter` sees after the last event"""
+    import asyncio
+    from pyg_base import waiter
+    loop = asyncio.new_event_loop()
+    try:
+        futs = {}
+
+        def mk(n):
+            if n not in futs:
+                futs[n] = loop.create_future()
+            return futs[n]
+
+        async def main():
+            struct = dec_w(wsx, mk)
+            task = asyncio.ensure_future(waiter(struct))
+            for _ in range(spin):
+                await asyncio.sleep(0)
+            for i, (good, v) in events:
+                if i in futs:
+                    if good:
+                        futs[i].set_result(v)
+                    else:
+                        futs[i].set_exception(Boom(v))
+                for _ in range(spin):
+                    await asyncio.sleep(0)
+            if task.done():
+                exc = task.exception()
+                out = ('raised', exc.n) if isinstance(exc, Boom) else ('ok', task.result())
+            else:
+                out = ('pending', None)
+                task.cancel()
+                try:
+                    await task
+                except BaseException:
+                    pass
+            for f in futs.values():          # retrieve, so that asyncio does not log "exception was never retrieved"
+                if f.done() and not f.cancelled():
+                    f.exception()
+            return out
+        return loop.run_until_complete(main())
+    finally:
+        loop.close()
